@@ -7,6 +7,7 @@ package verifrt
 import (
 	"fmt"
 	"sort"
+	"sync"
 )
 
 // YieldHook, when set, is called at every instrumented scheduling point.
@@ -163,4 +164,48 @@ func (it *MapIter) Next() (interface{}, bool) {
 	k := it.keys[it.pos]
 	it.pos++
 	return k, true
+}
+
+// ---- sync.Pool seam. Whether Get hands back a pooled object or a fresh one
+// depends on the garbage collector and on which P a goroutine runs on; under
+// simulation that is a choice of the run, not of the Go runtime. With no hook
+// installed the real pool is used.
+
+// PoolHook decides, for a Get on a pool that holds n objects, whether one of
+// them is reused (true) or a fresh object is made (false).
+var PoolHook func(n int) bool
+
+var pools = map[*sync.Pool][]interface{}{}
+
+// ResetPools empties the simulated pools (called at the start of a run).
+func ResetPools() {
+	if len(pools) > 0 {
+		pools = map[*sync.Pool][]interface{}{}
+	}
+}
+
+// PoolGet replaces p.Get() in instrumented packages.
+func PoolGet(p *sync.Pool) interface{} {
+	h := PoolHook
+	if h == nil {
+		return p.Get()
+	}
+	if items := pools[p]; len(items) > 0 && h(len(items)) {
+		x := items[len(items)-1]
+		pools[p] = items[:len(items)-1]
+		return x
+	}
+	if p.New != nil {
+		return p.New()
+	}
+	return nil
+}
+
+// PoolPut replaces p.Put(x) in instrumented packages.
+func PoolPut(p *sync.Pool, x interface{}) {
+	if PoolHook == nil {
+		p.Put(x)
+		return
+	}
+	pools[p] = append(pools[p], x)
 }
